@@ -1,7 +1,13 @@
 import TbbVerif.Core.Proto
+import TbbVerif.Model.C02
 
 open TbbVerif
 
-def drivers : List (String × Proto.Driver) := []
+def drivers : List (String × Proto.Driver) := [
+  ("c02mon", C02.driverMon),
+  ("c02sem", C02.driverSem),
+  ("c02tso", C02.driverTso),
+  ("c02flag", C02.driverFlag)
+]
 
 def main (args : List String) : IO UInt32 := Proto.mainOf drivers args
